@@ -24,6 +24,7 @@ mod l5;
 mod l6;
 mod l7;
 mod l8;
+mod l9;
 mod oracle;
 mod seeds;
 mod tok;
@@ -45,6 +46,7 @@ enum Layer {
     L6,
     L7,
     L8,
+    L9,
 }
 
 impl Layer {
@@ -60,6 +62,7 @@ impl Layer {
             Layer::L6 => "L6-scaling",
             Layer::L7 => "L7-self-reference-through-type-constructors",
             Layer::L8 => "L8-constants-in-every-position",
+            Layer::L9 => "L9-uninhabited-values-and-constant-initialisers",
         }
     }
     fn chunk(self) -> u64 {
@@ -73,12 +76,13 @@ impl Layer {
             Layer::L6 => 14,
             Layer::L7 => 200,
             Layer::L8 => 250,
+            Layer::L9 => 100,
         }
     }
 }
 
-const ORDER: [Layer; 10] =
-    [Layer::L6, Layer::L7, Layer::L8, Layer::L1, Layer::L4, Layer::L5Mem, Layer::L5Disk, Layer::L2t, Layer::L2, Layer::L3];
+const ORDER: [Layer; 11] =
+    [Layer::L6, Layer::L9, Layer::L7, Layer::L8, Layer::L1, Layer::L4, Layer::L5Mem, Layer::L5Disk, Layer::L2t, Layer::L2, Layer::L3];
 
 struct Plan {
     l3: l3::Table,
@@ -102,6 +106,7 @@ fn plan(cfg: &Cfg) -> Plan {
             Layer::L6 => l6::count(cfg),
             Layer::L7 => l7::count(cfg),
             Layer::L8 => l8::count(cfg),
+            Layer::L9 => l9::count(cfg),
         };
         counts.push((l, n));
         let mut lo = 0;
@@ -128,6 +133,7 @@ fn build(cfg: &Cfg, p: &Plan, layer: Layer, idx: u64) -> (Option<Input>, Value) 
         Layer::L6 => some(l6::case(cfg, idx)),
         Layer::L7 => some(l7::case(cfg, idx)),
         Layer::L8 => some(l8::case(cfg, idx)),
+        Layer::L9 => some(l9::case(cfg, idx)),
     }
 }
 
@@ -279,7 +285,7 @@ impl Check for C06 {
                     fork_probe(&mut runner, &input, l6::WALL_BACKSTOP_S, Some((Some(l6::AS_CAP), l6::cpu_cap_s(&cfg))))
                 }
                 // L7: every input may bind a type variable to a type containing it
-                Input::Single(_) if layer == Layer::L7 => {
+                Input::Single(_) if layer == Layer::L7 || layer == Layer::L9 => {
                     probes += 1;
                     fork_probe(&mut runner, &input, l6::WALL_BACKSTOP_S, Some((None, probe_cpu_s)))
                 }
@@ -408,6 +414,7 @@ impl Check for C06 {
                 "L6": l6::bounds(cfg),
                 "L7": l7::bounds(cfg),
                 "L8": l8::bounds(cfg),
+                "L9": l9::bounds(cfg),
             }),
             states_are: "distinct inputs (source texts / module trees); distinct inside each unit, enumeration indices are distinct across units".into(),
             transitions_are: "runs of FileTree::compile (+ RotoReport::write twice and the location check on Err)".into(),
